@@ -195,3 +195,60 @@ func GenTwinBranches(r *hx.Rng, stageCmd string) (*Program, map[string]int) {
 	p.Top = &Call{ID: "TOPT", Callee: "TOPT", Binds: []Bind{{Param: "seed", E: Lit(hx.JInt(int64(r.Intn(1000))))}}}
 	return p, stats
 }
+
+// GenPreflightNested builds a program of the family "preflight gates
+// everything": the top pipeline has a preflight call, a plain stage call and
+// a call of a sub-pipeline nested 1..3 levels deep whose innermost stages are
+// bound only to pipeline inputs and literals (so nothing but the preflight
+// stage holds them back), each feeding a second stage.  Every call of the
+// program, at any depth, depends on the preflight call.
+func GenPreflightNested(r *hx.Rng, stageCmd string) (*Program, map[string]int) {
+	stats := map[string]int{}
+	depth := 1 + r.Intn(3)
+	stats[fmt.Sprintf("preflight_nested_depth_%d", depth)]++
+	p := &Program{StageCmd: stageCmd}
+	pf := &Stage{Name: "PFCHECK", Ins: []Field{{"x", TInt}}, MainOuts: map[string]*SExp{}, ChunkOutsB: map[string]*SExp{}}
+	work := &Stage{Name: "WORK", MainOuts: map[string]*SExp{}, ChunkOutsB: map[string]*SExp{}}
+	work.Ins = []Field{{"i0", TInt}}
+	work.Outs = []Field{{"o0", TInt}}
+	work.MainOuts["o0"] = &SExp{K: "arg", Name: "i0"}
+	p.Stages = []*Stage{pf, work}
+	var prev *Pipeline
+	for k := depth; k >= 1; k-- {
+		pl := &Pipeline{Name: fmt.Sprintf("N%d", k), Ins: []Field{{"p0", TInt}}, Outs: []Field{{"r0", TInt}}}
+		var first *Exp = &Exp{K: "ref", Src: "self", Out: "p0"}
+		if r.Bool() {
+			first = Lit(hx.JInt(int64(50 + k)))
+		}
+		pl.Calls = append(pl.Calls, &Call{ID: "FIRST", Callee: "WORK", Binds: []Bind{{Param: "i0", E: first}}})
+		pl.Calls = append(pl.Calls, &Call{ID: "SECOND", Callee: "WORK",
+			Binds: []Bind{{Param: "i0", E: &Exp{K: "ref", Src: "FIRST", Out: "o0"}}}})
+		ret := "SECOND"
+		if prev != nil {
+			pl.Calls = append(pl.Calls, &Call{ID: prev.Name, Callee: prev.Name,
+				Binds: []Bind{{Param: "p0", E: &Exp{K: "ref", Src: "self", Out: "p0"}}}})
+			if r.Bool() {
+				ret = prev.Name
+			}
+		}
+		out := "o0"
+		if ret != "SECOND" {
+			out = "r0"
+		}
+		pl.Ret = []Bind{{Param: "r0", E: &Exp{K: "ref", Src: ret, Out: out}}}
+		p.Pipelines = append(p.Pipelines, pl)
+		prev = pl
+	}
+	top := &Pipeline{Name: "TOPP", Ins: []Field{{"seed", TInt}}, Outs: []Field{{"r0", TInt}, {"r1", TInt}}}
+	top.Calls = append(top.Calls, &Call{ID: "PFCHECK", Callee: "PFCHECK", Preflight: true,
+		Binds: []Bind{{Param: "x", E: &Exp{K: "ref", Src: "self", Out: "seed"}}}})
+	top.Calls = append(top.Calls, &Call{ID: "TOPWORK", Callee: "WORK",
+		Binds: []Bind{{Param: "i0", E: &Exp{K: "ref", Src: "self", Out: "seed"}}}})
+	top.Calls = append(top.Calls, &Call{ID: prev.Name, Callee: prev.Name,
+		Binds: []Bind{{Param: "p0", E: Lit(hx.JInt(int64(r.Intn(100))))}}})
+	top.Ret = []Bind{{Param: "r0", E: &Exp{K: "ref", Src: "TOPWORK", Out: "o0"}},
+		{Param: "r1", E: &Exp{K: "ref", Src: prev.Name, Out: "r0"}}}
+	p.Pipelines = append(p.Pipelines, top)
+	p.Top = &Call{ID: "TOPP", Callee: "TOPP", Binds: []Bind{{Param: "seed", E: Lit(hx.JInt(int64(r.Intn(1000))))}}}
+	return p, stats
+}
